@@ -121,7 +121,22 @@ fn trackers(cli: &Cli, rep: &mut Report) {
             vary_nobj: false,
         };
         let h = HistOpts { len: if cli.small { 6 } else { 30 + rng.usize(40) }, lifecycle_ops: false, clear_wasted: false, auto_waste_ops: false, batches: false, empty_calls: true };
-        let ops = gen_history(&mut rng, &w, &h);
+        let mut ops = gen_history(&mut rng, &w, &h);
+        // a quarter of the histories are in normalised image coordinates (everything scaled by 1/1000: boxes a few hundredths
+        // wide): distances "in units of the sum of the bounding radii" do not depend on the scale
+        if rng.chance(0.25) {
+            for op in ops.iter_mut() {
+                if let Op::Predict { dets, .. } = op {
+                    for d in dets.iter_mut() {
+                        d.b.xc *= 1e-3;
+                        d.b.yc *= 1e-3;
+                        d.b.h *= 1e-3;
+                    }
+                }
+            }
+            cfg.vis.min_area *= 1e-6;
+            rep.count("histories_in_normalised_coordinates");
+        }
         rep.eval();
         // (1) constraints that no pair violates == no constraints (bit-exact, ids included)
         let mut loose = cfg.clone();
